@@ -36,6 +36,7 @@ type HarnessSpec struct {
 	Outside  []string          `json:"outside"`
 	Assumptions []string       `json:"assumptions"`
 	NativeReplay *bool         `json:"native_replay"`
+	NativeTries  int           `json:"native_tries"` // native replays of a schedule-dependent counterexample (stress loop)
 }
 
 func (h *HarnessSpec) native() bool { return h.NativeReplay == nil || *h.NativeReplay }
@@ -563,11 +564,30 @@ func cmdCheck(argv []string) int {
 				unconfirmed++
 				continue
 			}
-			res, err := nb.run(bin, c.r.h.Entry, c.r.args, c.path, 3*time.Minute)
+			tries := c.r.h.NativeTries
+			if tries < 1 {
+				tries = 1
+			}
+			var res *nativeResult
+			var err error
+			hits := 0
+			for t := 0; t < tries; t++ {
+				res, err = nb.run(bin, c.r.h.Entry, c.r.args, c.path, 3*time.Minute)
+				if err != nil {
+					break
+				}
+				if res.violated() {
+					hits++
+					break
+				}
+			}
 			if err != nil {
 				fmt.Printf("    native replay error: %v\n", err)
 				unconfirmed++
 				continue
+			}
+			if tries > 1 {
+				fmt.Printf("    native stress replay: up to %d runs, reproduced: %v\n", tries, hits > 0)
 			}
 			if !res.violated() {
 				fmt.Printf("    NOT reproduced natively: encoder or stub error suspected (no VIOLATION reported for it)\n")
